@@ -11,7 +11,7 @@
    [FFSP.step] = None where the code would index out of range or `_move_to_next_machine` would not return within
    (largest wait counter + 2) sweeps.  SMTWTP (Env/SMTWTP.v): action = job index, 0 = the dummy start node. *)
 From Coq Require Import ZArith List Bool Arith Permutation.
-From RL4CO Require Import Base.FFSPLists Spec.Schedule Spec.FlowShop Env.FFSP Env.FFSPProofs Env.SMTWTP Env.SchedBatch2.
+From RL4CO Require Import Base.FFSPLists Spec.Schedule Spec.FlowShop Env.FFSP Env.FFSPProofs Env.SMTWTP Env.SchedBatch2 Env.FFSPBound.
 From RL4CO Require Import Env.FJSP Env.FJSPProofs Env.SchedBatch.
 Import ListNotations.
 Open Scope nat_scope.
@@ -165,6 +165,27 @@ Theorem C02_ffsp_every_step_advances_the_clock :
 Proof. exact ffsp_length_le_clock. Qed.
 Print Assumptions C02_ffsp_every_step_advances_the_clock.
 
+(* step bound, part 3: time itself is bounded by the instance, whatever the policy does with the wait action.  Dall i = the
+   largest duration of the instance.  (time_idx + largest job wait counter + (J*S - real-job steps so far)*(Dall+2) grows only
+   in an idle sweep of the stage x machine table; at most one idle sweep fits into one _move_to_next_machine, and it ends
+   where the mask does not offer the wait action, so the next step is a real-job step that pays for it.) *)
+Theorem C02_ffsp_time_bounded_by_the_instance :
+  forall (i : FFSP.inst) (acts : list nat) (s : FFSP.st),
+    FFSP.wfb i = true -> FFSP.adm i (FFSP.reset i) acts = true -> FFSP.run i (FFSP.reset i) acts = Some s ->
+    (0 <= FFSP.time s <= Z.of_nat (FFSP.nJ i * FFSP.nS i) * (Dall i + 2) + 1)%Z.
+Proof. exact ffsp_time_bound. Qed.
+Print Assumptions C02_ffsp_time_bounded_by_the_instance.
+
+(* hence THE step bound of FFSP: a mask-confined episode (waits included, any policy) whose proper prefixes are unfinished
+   has at most (J*S*(Dall+2) + 2) * S*M steps *)
+Theorem C02_ffsp_step_bound :
+  forall (i : FFSP.inst) (acts : list nat) (s : FFSP.st),
+    FFSP.wfb i = true -> FFSP.adm i (FFSP.reset i) acts = true -> FFSP.run i (FFSP.reset i) acts = Some s ->
+    (forall p q sp, acts = p ++ q -> q <> [] -> FFSP.run i (FFSP.reset i) p = Some sp -> FFSP.done sp = false) ->
+    (Z.of_nat (length acts) <= (Z.of_nat (FFSP.nJ i * FFSP.nS i) * (Dall i + 2) + 2) * Z.of_nat (FFSP.nS i * FFSP.nM i))%Z.
+Proof. exact ffsp_step_bound. Qed.
+Print Assumptions C02_ffsp_step_bound.
+
 (* ... but the number of waits is NOT bounded by the instance SIZE: J*S*(1+M) is exceeded on a 2-job, 2-stage, 1-machine
    instance with one long operation (13 admitted steps, bound 8) -- the wait count depends on the durations *)
 Theorem C02_ffsp_ops_times_machines_bound_refuted :
@@ -213,6 +234,6 @@ Example C02_sched_dead_end_without_solvable :
 Proof. vm_compute. repeat split. Qed.
 Example C02_sched_nonvacuous_ffsp_smtwtp :
   FFSP.wfb FFSP.ex_i = true /\ FFSP.adm FFSP.ex_i (FFSP.reset FFSP.ex_i) (FFSP.ex_acts ++ [3%nat; 3%nat]) = true /\
-  job_actions FFSP.ex_i FFSP.ex_acts = 6%nat /\
+  job_actions FFSP.ex_i FFSP.ex_acts = 6%nat /\ Dall FFSP.ex_i = 3%Z /\ Dall wait_i = 9%Z /\
   SMTWTP.wfb SMTWTP.ex_i = true /\ SMTWTP.adm SMTWTP.ex_i (SMTWTP.reset SMTWTP.ex_i) [2%nat; 3%nat; 1%nat] = true.
 Proof. vm_compute. repeat split. Qed.
